@@ -672,6 +672,29 @@ theorem live_equals_edits_only (P : Edit.Params) (lt : Node → Node → Prop) (
     · cases h2
   · cases h1
 
+/-- **What a cells of the machine computes**: in every reachable state the formula of the cells member
+`(q, n)` – defined in `q` or derived into it – is the source its entry carries (for a derived member the
+payload of its FIRST definer, `C03.mech_derived_from_first_definer`) resolved in the namespace of `q`
+itself; the machine has no model-level references, its namespace is `SM.nsOf`, and the formula is the one
+`SM.structEnv` assigns (`C03.derived_cells_formula_is_definers_source_in_sub_space`). -/
+theorem machine_formula_is_source_in_own_space (P : Edit.Params) (lt : Node → Node → Prop) (ho : StrictOrder lt)
+    (ops : List Edit.Op) (hadm : Edit.Admissible P lt {} ops) (q : SM.Path) (n : String) (m : SM.Member)
+    (hm : (Edit.run P {} ops).sm.mem .cells q n = some m) (key : Key) :
+    ((Edit.run P {} ops).env P).formula ((Edit.run P {} ops).tabs.cid q n, key) =
+      resolve (Edit.nsAt (Edit.run P {} ops).tabs (Edit.run P {} ops).sm q) (P.srcOf m.payload key) ∧
+    (∀ gid, Edit.nsAt (Edit.run P {} ops).tabs (Edit.run P {} ops).sm q =
+      SM.nsOf ⟨(Edit.run P {} ops).tabs.cid, (Edit.run P {} ops).tabs.rid, gid⟩ (Edit.run P {} ops).sm q) ∧
+    (∀ (se : SEnv) (D : SM.Dec) (gid : String → RefId),
+      D.cellOf ((Edit.run P {} ops).tabs.cid q n) = (q, n) → D.pathOf (D.num q) = q →
+      ((Edit.run P {} ops).env P).formula ((Edit.run P {} ops).tabs.cid q n, key) =
+        (SM.structEnv se ⟨(Edit.run P {} ops).tabs.cid, (Edit.run P {} ops).tabs.rid, gid⟩ D P.srcOf P.valOf
+          (Edit.run P {} ops).sm).toEnv.formula ((Edit.run P {} ops).tabs.cid q n, key)) := by
+  have h := (machine_reachable_ci P lt ho ops hadm).1
+  have hg : (Edit.run P {} ops).sm.globals = [] := Edit.globals_run P ops {} SM.inv_empty rfl
+  exact ⟨Edit.envOf_formula_member P _ _ h.alloc q n m hm key,
+    fun gid => Edit.nsAt_eq_nsOf _ _ hg gid q,
+    fun se D gid hdec hnum => Edit.envOf_agrees_with_structEnv P _ _ h.alloc hg se D gid q n m hm key hdec hnum⟩
+
 /-- **The inputs after a structural edit** are the inputs before minus those of the cells the clearing
 removed as objects (`clear_obj`, deletion of the space): notifications and
 `clear_attr_referrers` keep every input. -/
@@ -728,6 +751,19 @@ example : Edit.noEvals Edit.eOps = [
     .struct (.newSpace [] "Base" [] []), .struct (.newCells ["Base"] "f" "f" 0), .struct (.setRef ["Base"] "y" 1),
     .struct (.newSpace [] "Sub" [["Base"]] []), .struct (.setRef ["Sub"] "y" 10),
     .struct (.setFormula ["Base"] "f" 1)] := rfl
+
+/-- the reference a behaviour reads first by name, if that is what it starts with -/
+def firstNameRead : Prog → Option RefId
+  | .read false r _ => some r
+  | _ => none
+
+/-- the derived `Sub.f` (identity 1) reads the reference `y` OF `Sub` (identity 1), `Base.f` the one of `Base` -/
+example : firstNameRead (((Edit.run Edit.eP {} (Edit.eOps.take 5)).env Edit.eP).formula (1, [])) = some 1 ∧
+    firstNameRead (((Edit.run Edit.eP {} (Edit.eOps.take 5)).env Edit.eP).formula (0, [])) = some 0 ∧
+    (Edit.run Edit.eP {} (Edit.eOps.take 5)).tabs.cid ["Sub"] "f" = 1 ∧
+    (Edit.run Edit.eP {} (Edit.eOps.take 5)).tabs.rid ["Sub"] "y" = 1 ∧
+    (Edit.run Edit.eP {} (Edit.eOps.take 5)).sm.mem .cells ["Sub"] "f" = some ⟨true, 0⟩ := by
+  decide
 
 /-- the sources of the example are in the regime, in every structure -/
 example (ops : List Edit.Op) : Edit.Admissible Edit.eP idLt {} ops :=
